@@ -3,5 +3,6 @@ NEXT Next
 CONSTRAINT Check
 CHECK_DEADLOCK FALSE
 CONSTANTS
+  DefMutant = "none"
   PullMutant = "none"
   BuildMutant = "none"
